@@ -62,6 +62,15 @@ class TreeInterp(Interp):
     def _native_obj_attr(self, o, name):
         return super()._native_obj_attr(o, name)
 
+    def setattr(self, o, name, value):
+        if isinstance(o, tuple) and len(o) == 5 and o[0] == "line":
+            # an annotation put on a content line object (a hint for the folder, ...): the tree
+            # model looks at names, parameters and values only; what such a hint does to the
+            # bytes is the business of the unstubbed models (C06/COMPONENT)
+            self.__dict__.setdefault("line_attrs", []).append((o, name, value))
+            return
+        return super().setattr(o, name, value)
+
     def _memo_key(self, x):
         """Hash/equality of the abstract serialisation (bytes built from content lines): two
         serialisations are the same bytes iff they list equal lines in the same order."""
